@@ -260,8 +260,9 @@ std::string run_case(Src& s, CaseInfo& ci)
     else if (sub == 2)
     {
       // every '?' is one split; RE_MAX_SPLIT_ID is 128
-      static const int N[] = {100, 127, 128, 129, 200, 1000};
-      int n = N[s.range(0, 5)];
+      // (the split counter is 8 bits wide: multiples of 256 and their neighbourhood are boundaries too)
+      static const int N[] = {100, 127, 128, 129, 200, 255, 256, 257, 300, 384, 385, 512, 640, 1000};
+      int n = N[s.range(0, 13)];
       for (int i = 0; i < n; i++) re += "a?";
       re += "b";
       ok = n < 128;
